@@ -1267,6 +1267,7 @@ class ElementListCouplingMixin(ElementList[T], t.Generic[T]):
             )
 
         accessor.__set__(self._parent, new_objs)
+        self._elements[:] = [i._element for i in new_objs]
 
     def __delitem__(self, index: int | slice) -> None:
         if self.fixed_length and len(self) <= self.fixed_length:
